@@ -19,7 +19,9 @@ for f in sorted(glob.glob(os.path.join(V, ".cache", "facts", "*.jsonl"))):
             l = int(p.split("|")[0])
             if 1 <= l <= o["argc"] and not n.startswith("__"):
                 names.setdefault(p, n)
-        if names:
-            out[o["key"]] = {"argc": o["argc"], "names": names}
+        # user-named locals in declaration order (for the detection of pure renames)
+        locs = [n for n, p in o["dbg"] if int(p.split("|")[0]) > o["argc"] and not n.startswith("__")]
+        if names or locs:
+            out[o["key"]] = {"argc": o["argc"], "names": names, "locals": locs}
 json.dump(out, open(os.path.join(V, "rules", "param_names.json"), "w"), sort_keys=True, separators=(",", ":"))
 print(len(out), "bodies")
